@@ -11,7 +11,6 @@ T1_queue == <<"queue">>
 X1 == <<1>>
 M1_6 == <<6>>
 G1_1 == <<1>>
-G1_2 == <<2>>
 \* a splittable reply (up to 6 parts) and a single-part reply of another request
 T2_flow_desc == <<"flow", "desc">>
 T2_table_aggr == <<"table", "aggr">>
@@ -20,7 +19,6 @@ T2_queue_aggr == <<"queue", "aggr">>
 X2 == <<1, 2>>
 X2same == <<1, 1>>
 M2_61 == <<6, 1>>
-M2_41 == <<4, 1>>
 G2_22 == <<2, 2>>
 \* two requests of the same type (different xid) and one of another type with the first one's xid
 T3_flow == <<"flow", "flow", "port">>
